@@ -10,4 +10,17 @@ namespace Yalafi
 
 def examinedGlobals : List String := ["yalafi/documentclasses/__init__.py:load_table", "yalafi/documentclasses/article.py:require_packages", "yalafi/documentclasses/book.py:require_packages", "yalafi/documentclasses/report.py:require_packages", "yalafi/documentclasses/scrartcl.py:require_packages", "yalafi/documentclasses/scrbook.py:require_packages", "yalafi/documentclasses/scrreprt.py:require_packages", "yalafi/packages/__init__.py:load_table", "yalafi/packages/amsmath.py:require_packages", "yalafi/packages/amsthm.py:require_packages", "yalafi/packages/babel.py:language_map", "yalafi/packages/babel.py:require_packages", "yalafi/packages/biblatex.py:require_packages", "yalafi/packages/circuitikz.py:require_packages", "yalafi/packages/cleveref.py:require_packages", "yalafi/packages/geometry.py:require_packages", "yalafi/packages/glossaries.py:require_packages", "yalafi/packages/glossaries_extra.py:require_packages", "yalafi/packages/graphicx.py:require_packages", "yalafi/packages/hyperref.py:require_packages", "yalafi/packages/inputenc.py:require_packages", "yalafi/packages/listings.py:require_packages", "yalafi/packages/mathtools.py:require_packages", "yalafi/packages/pgfplots.py:require_packages", "yalafi/packages/tikz.py:require_packages", "yalafi/packages/unicode_math.py:require_packages", "yalafi/packages/xcolor.py:require_packages", "yalafi/packages/xspace.py:require_packages", "yalafi/packages/xspace.py:xspace_excl", "yalafi/shell/addpacks.py:documentclass", "yalafi/shell/addpacks.py:packages", "yalafi/shell/addpacks.py:require_packages", "yalafi/shell/genhtml.py:global cmdline", "yalafi/shell/genhtml.py:global highlight_style", "yalafi/shell/genhtml.py:global json_get", "yalafi/shell/genhtml.py:global msg_LT_server_html", "yalafi/shell/genhtml.py:global number_style", "yalafi/shell/gentext.py:global cmdline", "yalafi/shell/gentext.py:global json_get", "yalafi/shell/gentext.py:global msg_LT_server_txt", "yalafi/shell/genxml.py:global cmdline", "yalafi/shell/genxml.py:global json_get", "yalafi/shell/genxml.py:global msg_LT_server_txt", "yalafi/shell/proofreader.py:global cmdline", "yalafi/shell/proofreader.py:global equation_replacements", "yalafi/shell/proofreader.py:global equation_replacements_display", "yalafi/shell/proofreader.py:global equation_replacements_inline", "yalafi/shell/proofreader.py:global json_decoder", "yalafi/shell/proofreader.py:global json_fatal", "yalafi/shell/proofreader.py:global json_get", "yalafi/shell/proofreader.py:global lt_option_map", "yalafi/shell/proofreader.py:global ltcommand", "yalafi/shell/proofreader.py:global ltserver", "yalafi/shell/proofreader.py:global ltserver_local", "yalafi/shell/proofreader.py:global ltserver_local_cmd", "yalafi/shell/proofreader.py:global ltserver_local_running", "yalafi/shell/proofreader.py:global textgears_server", "yalafi/shell/shell.py:done", "yalafi/shell/shell.py:lt_option_map"]
 
+/-- the functions that change one of these objects in place, examined one by one:
+    `babel.modify_language_map` is a public hook for user modules and is called by nothing in the
+    package; `addpacks.add` / `addpacks.init_module` belong to the shell's `--add-modules` pre-pass,
+    which runs once per process before any document is converted.  A new writer (for instance a
+    `setdefault` on `language_map` while a document is converted) makes `C17_writers_accounted`
+    fail. -/
+def examinedWriters : List String := [
+  "yalafi/packages/babel.py:modify_language_map:language_map:item",
+  "yalafi/shell/addpacks.py:add:documentclass:item",
+  "yalafi/shell/addpacks.py:add:packages:append",
+  "yalafi/shell/addpacks.py:init_module:documentclass:item",
+  "yalafi/shell/addpacks.py:init_module:packages:append"]
+
 end Yalafi
